@@ -229,6 +229,7 @@ def C10(ctx):
         w = json.dumps(c['expect'][0]['wiring'], sort_keys=True)
         if byb.setdefault(b, w) != w:
             raise Broken('WireSem wiring differs between regroupings of base ' + b)
+    cases += ctx.export('FamilyX(p, {"same-name-packages", "two-fieldsof-items", "bind-after-concrete", "two-unnamed-values", "multi-name-var-sets", "same-named-sets-two-packages"})')
     ctx.design_analyze(cases, limit=250 if ctx.quick else 1500, label='family M ')
     ctx.run(cases, nontrivial=lambda c: c['prog']['sets'] != [], runtime=True, switches=W_ONLY)
 
@@ -290,6 +291,12 @@ def C01(ctx):
     for expr, k in exprs:
         cases = ctx.export(expr, pre_sample=(k if ctx.quick else (k * 10 if k else None)))
         ctx.run(only_success(cases), nontrivial=nt, runtime=False, build=True)
+    # generated files that carry copied declarations and value expressions (import aliases, requalified identifiers)
+    import copydecl
+    dcs = ctx.export('FamilyD(p)', extends='WireCopyDecl', caseop='CaseD', pre_sample=60 if ctx.quick else None)
+    copydecl.run(ctx, dcs)
+    ecs = ctx.export('FamilyE(p, 1)', extends='WireValueExpr', caseop='CaseE')
+    ctx.run(ecs, nontrivial=nt, runtime=False, build=True)
 
 
 def C20(ctx):
